@@ -52,7 +52,10 @@ WellFormedCls(c) == \A j \in 2..Len(DcFields(c)) :
 \* reference FromDict does not know them -- keys "cv" / "iv" in the input are unknown keys and are ignored; the real class
 \* refuses (in __post_init__) any iv other than its default and any change of cv
 FlatX(ks) == <<"dc", "K", Fields(ks), << <<"extras", <<"cv", "iv">> >> >> >>
+\* the same layouts as frozen / slotted dataclasses (slots=True makes dataclass() build a second class object)
+FlatO(ks, o) == <<"dc", "K", Fields(ks), << <<o, TRUE>> >> >>
 Classes == { Flat(ks) : ks \in Layouts } \cup { FlatX(ks) : ks \in { l \in Layouts : Len(l) <= 2 } }
+           \cup { FlatO(ks, o) : ks \in { l \in Layouts : Len(l) <= 2 }, o \in {"frozen", "slots"} }
            \cup UNION { { Split(ks, s) : s \in 1..Len(ks) } : ks \in { l \in Layouts : Len(l) >= 2 } }
            \cup { c \in Overrides : WellFormedCls(c) }
 Good(f) == IF FType(f) = IntL THEN L(<<I(8), I(9)>>) ELSE I(40)
